@@ -26,7 +26,7 @@ TraceNext ==
   /\ l <= Len(T) /\ E.ev = "RES" /\ l' = l + 1 /\ UNCHANGED tid
   /\ IF E.ok THEN Outcome(CS, SS, E.c, E.s)
      ELSE /\ E.cfail /\ E.sfail
-          /\ ~MustConnect(CS, SS, T[1].certKey, T[1].certBits, T[1].certCurve, T[1].candidates)
+          /\ ~MustConnectCA(CS, SS, T[1].certKey, T[1].certBits, T[1].certCurve, T[1].candidates, T[1].cltBits)
 Mark == IF l - 1 > TLCGet(tid) THEN TLCSet(tid, l - 1) ELSE TRUE
 ASSUME \A i \in 1..N : TLCSet(i, 0)
 Rejected == { i \in 1..N : TLCGet(i) # Len(Traces[i]) }
